@@ -14,39 +14,36 @@ def overlay(o):
     f = r.fn("Composer::range_check_even")
     N = "wits(*old(self)).len()"
     NB = "(num_bits as int)"
-    f.verus("composer.Composer::range_check_even", attrs=["#[verifier::loop_isolation(false)]"],
-            requires=["valid_w(*old(self), witness)", "num_bits % 2 == 0", "num_bits <= 256", "wits(*old(self)).len() + 256 < usize::MAX"],
+    f.verus("composer.Composer::range_check_even", attrs=["#[verifier::loop_isolation(false)]", "#[verifier::spinoff_prover]", "#[verifier::rlimit(80)]"],
+            requires=["valid_w(*old(self), witness)", "num_bits % 2 == 0", "num_bits <= 256"],
             ensures=["pis(*final(self)) == pis(*old(self))",
-                     "num_bits == 0 ==> wits(*final(self)) == wits(*old(self))"
-                     " && gates(*final(self)) == gates(*old(self)).push(arith_row(0, 1, 0, 0, 0, 0, witness.idx(), 0, 0, 0))",
-                     f"num_bits > 0 ==> wits(*final(self)).len() == {N} + num_bits / 2"
-                     f" && wits(*final(self)).subrange(0, {N} as int) == wits(*old(self))",
-                     f"num_bits > 0 ==> gates(*final(self)) == gates(*old(self)) + rc_rows({NB}, {N} as int)"
-                     f".push(arith_row(0, 1, neg1(), 0, 0, 0, ({N} + num_bits / 2 - 1) as nat, witness.idx(), 0, 0))"])
+                     f"gates(*final(self)) == gates(*old(self)) + rce_rows({NB}, {N} as int, witness.idx())",
+                     f"wits(*final(self)).len() == {N} + rce_wits({NB})",
+                     f"wits(*final(self)).subrange(0, {N} as int) == wits(*old(self))"])
     f.at_body_start(FO)
-    f.before("let pad = 1 + (((num_quads << 1) - num_bits) >> 1);", """proof {
+    f.before("let pad =", """proof {
     assert(num_gates == rc_ng(num_bits as int));
     assert(num_quads <= 132);
     assert(num_quads << 1usize == num_quads * 2) by(bit_vector) requires num_quads <= 132;
     assert(forall|y: usize| y >> 1usize == y / 2) by(bit_vector);
 }""")
-    f.after("let pad = 1 + (((num_quads << 1) - num_bits) >> 1);", """proof {
+    f.after("let pad =", """proof {
     assert(num_quads == rc_nq(num_bits as int));
     assert(pad == rc_pad(num_bits as int));
     assert(1 <= pad <= num_quads);
 }""")
-    f.before("let mut accumulators: Vec<Witness> = Vec::new();", """proof {
+    f.before("let mut accumulators", """proof {
     assert(is_range_base(base));
     assert(base.w(0) == 0 && base.w(1) == 0 && base.w(2) == 0 && base.w(3) == 0);
     assert(rc_partial(constraints@, num_bits as int, wits(*old(self)).len() as int, pad as int));
 }""")
-    f.before("let bit_index = (num_quads - i) << 1;", """proof {
+    f.before("let bit_index =", """proof {
     assert(forall|y: usize| y <= 200 ==> #[trigger] (y << 1usize) == y * 2) by(bit_vector);
 }""")
-    f.before("if let Some(c) = constraints.last_mut() {\n            *c = Constraint::new();", """proof {
+    f.before("if let Some(c) = constraints.last_mut() { *c =", """proof {
     assert(accumulators@.len() == num_bits / 2);
 }""")
-    f.before("constraints\n            .into_iter()", """proof {
+    f.before("constraints.into_iter()", """proof {
     let nb = num_bits as int; let n0 = wits(*old(self)).len() as int;
     assert(rc_final(constraints@, nb, n0));
 }
@@ -60,7 +57,7 @@ let ghost cs0 = constraints@;""")
         "forall|j: int| 0 <= j < accumulators@.len() ==> (#[trigger] accumulators@[j]).idx() == wits(*old(self)).len() + j",
         "rc_partial(constraints@, num_bits as int, wits(*old(self)).len() as int, i as int)",
     ])
-    f.before("let mut num_gates = num_bits >> 3;", "proof { assert(num_bits >> 3usize == num_bits / 8) by(bit_vector); }")
+    f.before("let mut num_gates =", "proof { assert(num_bits >> 3usize == num_bits / 8) by(bit_vector); }")
     f.cut("""let bit_iter = BitIterator8::new(bits.to_bytes());
         let mut bits: Vec<_> = bit_iter.collect();
         bits.reverse();""", name="cut_le_bits", params="bits: BlsScalar", ret="r: Vec<bool>", tail="bits",
@@ -77,3 +74,45 @@ let ghost cs0 = constraints@;""")
         "pis(*self) == pis(*old(self))",
         "gates(*self) == gates(*old(self)) + rc_rows(num_bits as int, wits(*old(self)).len() as int).subrange(0, it.index@)",
     ])
+
+    # ---- recompose_bits (host-side helper)
+    b = o.file("src/composer/bits.rs")
+    f = b.fn("recompose_bits")
+    f.verus("composer.recompose_bits", ret="r", requires=["start <= end <= 256"], ensures=["true"], attrs=["#[verifier::loop_isolation(false)]"])
+    f.loop(0, invariant=["true"])
+    f.at_body_start(FO)
+    # ---- range_check: even -> chain; odd -> lower/top split
+    f = r.fn("Composer::range_check")
+    f.verus("composer.Composer::range_check",
+            requires=["valid_w(*old(self), value)", "num_bits <= 256"],
+            ensures=["pis(*final(self)) == pis(*old(self))",
+                     f"gates(*final(self)) == gates(*old(self)) + rcall_rows({NB}, {N} as int, value.idx())",
+                     f"wits(*final(self)).len() == {N} + rcall_wits({NB})",
+                     f"wits(*final(self)).subrange(0, {N} as int) == wits(*old(self))"])
+    f.at_body_start(FO)
+    f.after("let lower =", "proof { assert(wits(*self).subrange(0, wits(*old(self)).len() as int) =~= wits(*old(self))); }")
+    f.after("self.range_check_even(lower, top)", "proof { assert(wits(*self).subrange(0, wits(*old(self)).len() as int) =~= wits(*old(self))); }")
+    f.after("let top_bit =", "proof { assert(wits(*self).subrange(0, wits(*old(self)).len() as int) =~= wits(*old(self))); }")
+    f.before_tail("proof { assert(wits(*self).subrange(0, wits(*old(self)).len() as int) =~= wits(*old(self))); }")
+
+    # ---- public entry points
+    f = r.fn("Composer::component_range_bits")
+    f.verus("composer.Composer::component_range_bits",
+            requires=["valid_w(*old(self), witness)"],
+            ensures=["pis(*final(self)) == pis(*old(self))",
+                     f"gates(*final(self)) == gates(*old(self)) + rcall_rows(BITS as int, {N} as int, witness.idx())",
+                     f"wits(*final(self)).len() == {N} + rcall_wits(BITS as int)",
+                     f"wits(*final(self)).subrange(0, {N} as int) == wits(*old(self))"])
+    f.cut("""const {
+            assert!(
+                BITS <= 256,
+                "BITS must be <= 256: a witness is at most 256 bits wide"
+            )
+        };""", name="cut_static_assert_bits<const BITS: usize>", params="", call="Self::cut_static_assert_bits::<BITS>();",
+          ensures=["BITS <= 256"])
+    f = r.fn("Composer::component_range")
+    f.verus("composer.Composer::component_range",
+            requires=["valid_w(*old(self), witness)", "BIT_PAIRS <= usize::MAX / 2"],
+            ensures=["pis(*final(self)) == pis(*old(self))",
+                     f"gates(*final(self)) == gates(*old(self)) + rce_rows(if BIT_PAIRS * 2 <= 256 {{ BIT_PAIRS * 2 }} else {{ 256int }}, {N} as int, witness.idx())",
+                     f"wits(*final(self)).subrange(0, {N} as int) == wits(*old(self))"])
